@@ -37,6 +37,7 @@ class Cfg:
         self.downto = True
         self.data_all = False       # user data also on netlist, libraries, ports, cables
         self.late = False           # edits of definitions after they were instanced
+        self.twins = False          # same-named, same-shaped definitions in different libraries
         self.share = False          # bias children towards definitions that are already instanced
         self.__dict__.update(kw)
 
@@ -65,6 +66,13 @@ _json_val = st.recursive(_json_leaf, lambda ch: st.one_of(
 def _data(draw, cfg):
     if not cfg.data or draw(st.integers(0, 2)) != 0:
         return {}
+    if cfg.data_values == "edif":
+        props = draw(st.lists(st.fixed_dictionaries({
+            "identifier": st.sampled_from(["INIT", "LOC", "WIDTH", "IS_INV", "box_type"]),
+            "value": st.one_of(st.integers(0, 9), st.booleans(),
+                               st.sampled_from(["8'h01", "SLICE_X0Y0", "", "a b"]))}),
+            min_size=1, max_size=3, unique_by=lambda d: d["identifier"]))
+        return {"EDIF.properties": props}
     if cfg.data_values == "flat":
         vals = _json_leaf
     else:
@@ -110,6 +118,22 @@ def recipes(draw, cfg=None):
         used_p, used_c, used_i = set(), set(), set()
         nports = draw(st.integers(0, cfg.max_ports))
         d["ports"] = []
+        twin = None
+        if cfg.twins and flat and nlibs > 1 and draw(st.integers(0, 3)) == 0:
+            cands = [(l0, d0) for l0, d0 in flat if l0 != li and d0["name"] is not None
+                     and d0["name"] not in used_d[li]]
+            if cands:
+                twin = draw(st.sampled_from(cands))[1]
+        if twin is not None:
+            used_d[li].discard(d["name"])
+            d["name"] = twin["name"]
+            used_d[li].add(d["name"])
+            d["ports"] = [dict(p) for p in twin["ports"]]
+            nports = 0
+        elif cfg.twins and flat and draw(st.integers(0, 2)) == 0:
+            # same port shape as an earlier definition, own name
+            d["ports"] = [dict(p) for p in draw(st.sampled_from(flat))[1]["ports"]]
+            nports = 0
         for _ in range(nports):
             p = draw(_bundle(cfg, used_p, "_p"))
             dirs = [1, 2, 3] + ([0] if cfg.undefined_dir else [])
